@@ -18,8 +18,8 @@ import shutil
 from .common import LEAN, SRC, VERIF, add_failure, bump, new_outcome
 
 PROP = "C13"
-PROPS_FILES = ["CogentModel/Props/C13.lean", "CogentModel/Props/C13Gen.lean"]
-LEAN_TARGETS = ["CogentModel.Props.C13", "CogentModel.Props.C13Gen"]
+PROPS_FILES = ["CogentModel/Props/C13.lean", "CogentModel/Props/C13Gen.lean", "CogentModel/Props/C13Zip.lean"]
+LEAN_TARGETS = ["CogentModel.Props.C13", "CogentModel.Props.C13Gen", "CogentModel.Props.C13Zip"]
 DRIVER = "drv_c13"
 TRUSTED = [
     "hand-written models lean/CogentModel/Model/DataStore.lean (DataStoreDirectory over an abstract file system, "
@@ -662,6 +662,7 @@ def correspondence(ctx):
     cfg = detect_cfg(ctx)
     _names_stream(ctx, out)
     _fmt_stream(ctx, out)
+    _zip_corr_stream(ctx, out)
     rng = ctx.subrng("corr")
     n_hist = ctx.budget(200, 4000)
     for kind in ("dir", "sql"):
@@ -1273,6 +1274,7 @@ def spec_check(ctx, budget):
                 f = f2
         add_failure(out, "spec", f["what"], f["input"], f["expected"], f["got"], confirmed=True, sig=sig)
     _io_stream(ctx, out, budget)
+    _zip_spec_stream(ctx, out, budget)
     return out
 
 
@@ -1412,6 +1414,176 @@ def _io_stream(ctx, out, budget):
 
 
 # --------------------------------------------------------------------------
+# ReadOnlyDataStoreZipped: a zipped directory store lists what the directory store lists
+# --------------------------------------------------------------------------
+ZIP_SFXS = ["fasta", "json", "txt", "log", "fa.gz"]
+
+
+def _zip_build(ctx, sfx, plan, tag):
+    """write the plan [(w|nc|log, id, data)] to a fresh DataStoreDirectory (mode w), zip the directory -> (dir path, zip path, top)"""
+    from cogent3.app.data_store import DataStoreDirectory
+
+    base = ctx.scratch / f"zip_{tag}"
+    shutil.rmtree(base, ignore_errors=True)
+    base.mkdir(parents=True)
+    top = "st"
+    ds = DataStoreDirectory(base / top, mode="w", suffix=sfx)
+    for kind, uid, data in plan:
+        try:
+            if kind == "w":
+                ds.write(unique_id=uid, data=data)
+            elif kind == "nc":
+                ds.write_not_completed(unique_id=uid, data=data)
+            else:
+                ds.write_log(unique_id=uid, data=data)
+        except (OSError, ValueError):
+            pass
+    z = shutil.make_archive(str(base / top), "zip", root_dir=str(base), base_dir=top)
+    return base / top, z, top
+
+
+def _zip_listing(ds):
+    return dict(c=[m.unique_id for m in ds.completed], nc=[m.unique_id for m in ds.not_completed], logs=[str(m.unique_id) for m in ds.logs])
+
+
+def zip_case(ctx, sfx, plan, tag="zip"):
+    """the spec: ReadOnlyDataStoreZipped(<zip of the directory>) lists the same completed / not-completed / log members as
+    DataStoreDirectory(<directory>, mode='r'), and read() / md5() of each agree.  -> failure dict or None"""
+    import zipfile
+
+    from cogent3.app.data_store import DataStoreDirectory, ReadOnlyDataStoreZipped
+
+    d, z, top = _zip_build(ctx, sfx, plan, tag)
+    try:
+        dd = DataStoreDirectory(d, mode="r", suffix=sfx)
+        zz = ReadOnlyDataStoreZipped(z, suffix=sfx)
+        want, got = _zip_listing(dd), _zip_listing(zz)
+        parts = []
+        with zipfile.ZipFile(z) as a:
+            names = [n for n in a.namelist() if not n.endswith("/")]
+        for key in ("c", "nc", "logs"):
+            w, g = sorted(want[key]), sorted(got[key])
+            if w == g:
+                continue
+            extra = list(g)
+            for x in w:
+                if x in extra:
+                    extra.remove(x)
+            missing = [x for x in w if x not in g]
+            for x in extra:
+                # where does the extra member come from: a file of a sub-directory, or a second listing of a top-level file
+                parents = sorted({n.split("/")[-2] for n in names if n.split("/")[-1] == x.split("/")[-1] and n.split("/")[-2] != top})
+                parts.append(f"{key}-lists-{'|'.join(parents) if parents else 'unknown'}-file")
+            if missing:
+                parts.append(f"{key}-missing")
+        # read()/md5 are compared for single-part suffixes only (a zipped store hands back the stored bytes of a compressed
+        # record undecompressed; whether that is intended is not examined here)
+        if not parts and "." not in sfx:
+            for key, lst in (("c", want["c"]), ("nc", want["nc"])):
+                for uid in lst:
+                    try:
+                        a, b = dd.read(uid), zz.read(uid)
+                    except Exception as e:  # noqa: BLE001
+                        a, b = "read", type(e).__name__
+                    if a != b:
+                        parts.append(f"{key}-read-differs")
+                    if dd.md5(uid) != zz.md5(uid):
+                        parts.append(f"{key}-md5-differs")
+        if not parts:
+            return None
+        parts = sorted(set(parts))
+        return dict(
+            what="ReadOnlyDataStoreZipped on a zipped DataStoreDirectory does not show the directory store's records",
+            input=dict(stream="zip", store="zip", sfx=sfx, plan=[list(p) for p in plan]),
+            expected={k: sorted(v) for k, v in want.items()}, got={k: sorted(v) for k, v in got.items()},
+            sig=f"zip:listing:{'+'.join(parts)}:-",
+        )
+    finally:
+        shutil.rmtree(d.parent, ignore_errors=True)
+
+
+def _zip_plans(rng, n):
+    ids = ["a", "b", "ba", "x.y", "a.b"]
+    plans = []
+    for sfx in ZIP_SFXS:
+        plans.append((sfx, [("w", "a", "AAA"), ("nc", "b", "{}"), ("log", "run.log", "LOG")]))
+    for _ in range(n):
+        sfx = rng.choice(ZIP_SFXS)
+        k = rng.randint(1, 6)
+        plan = []
+        for i in range(k):
+            kind = rng.choice(["w", "w", "nc", "nc", "log"])
+            uid = rng.choice(ids) if kind != "log" else rng.choice(["run.log", "r2.log"])
+            plan.append((kind, uid, f"d{i}"))
+        plans.append((sfx, plan))
+    return plans
+
+
+def _zip_spec_stream(ctx, out, budget):
+    rng = ctx.subrng(f"zip{budget}")
+    seen = set()
+    plans = _zip_plans(rng, 6 * budget)
+    for i, (sfx, plan) in enumerate(plans):
+        f = zip_case(ctx, sfx, plan, tag=f"s{i}")
+        out["evaluations"] += 1
+        bump(out, "stream", "zip")
+        bump(out, "zip_sfx", sfx)
+        if len({k for k, _, _ in plan}) >= 2:
+            out["nontrivial"].add(("zip", sfx, str(plan)))
+        if f is not None and f["sig"] not in seen:
+            seen.add(f["sig"])
+            # shrink: drop plan steps while the same signature is reported
+            small = list(plan)
+            j = 0
+            while j < len(small) and len(small) > 1:
+                cand = small[:j] + small[j + 1:]
+                g = zip_case(ctx, sfx, cand, tag=f"s{i}m")
+                if g is not None and g["sig"] == f["sig"]:
+                    small, f = cand, g
+                else:
+                    j += 1
+            add_failure(out, "spec", f["what"], f["input"], f["expected"], f["got"], confirmed=True, sig=f["sig"])
+    if plans and len(out["samples"]) < 8:
+        out["samples"].append(dict(stream="zip", sfx=plans[0][0], plan=[list(p) for p in plans[0][1]]))
+
+
+def _zip_corr_stream(ctx, out):
+    """model (Model/DataStoreZip.lean) vs the real ReadOnlyDataStoreZipped: the three listings, in namelist order, of real archives"""
+    import zipfile
+
+    from cogent3.app.data_store import ReadOnlyDataStoreZipped
+
+    rng = ctx.subrng("zipcorr")
+    reqs, real = [], []
+    for i, (sfx, plan) in enumerate(_zip_plans(rng, ctx.budget(12, 60))):
+        d, z, top = _zip_build(ctx, sfx, plan, f"c{i}")
+        try:
+            with zipfile.ZipFile(z) as a:
+                names = a.namelist()
+            real.append(_zip_listing(ReadOnlyDataStoreZipped(z, suffix=sfx)))
+            reqs.append(dict(sfx=sfx, top=top, names=names))
+        finally:
+            shutil.rmtree(d.parent, ignore_errors=True)
+    got = ctx.driver.batch([("zip", r) for r in reqs])
+    # which `completed` does the tree implement: every entry (code as it is) or top-level entries only (proposed repair)
+    variant = None
+    for r, g, w in zip(reqs, got, real):
+        if g["c"] != g["ctop"]:
+            variant = "ctop" if w["c"] == g["ctop"] else "c"
+            break
+    variant = variant or "c"
+    ctx.notes.append(f"ReadOnlyDataStoreZipped.completed variant detected by behaviour: {'top-level entries only (repair)' if variant == 'ctop' else 'every archive entry (code as it is)'}")
+    for r, g, w in zip(reqs, got, real):
+        out["evaluations"] += 1
+        m = dict(c=g[variant], nc=g["nc"], logs=g["logs"])
+        if m != w:
+            add_failure(out, "corr", "model of ReadOnlyDataStoreZipped listing differs from the real store", r, w, m, confirmed=False)
+        elif len(r["names"]) > 4:
+            out["nontrivial"].add(("zipcorr", r["sfx"], str(r["names"])))
+    bump(out, "stream", "zipcorr")
+
+
+# --------------------------------------------------------------------------
 # findings
 # --------------------------------------------------------------------------
 def sig_atoms(sig):
@@ -1446,6 +1618,13 @@ def match_finding(f, k):
 
 
 def check_witness(ctx, w):
+    if w.get("stream") == "zip":
+        f = zip_case(ctx, w["sfx"], [tuple(p) for p in w["plan"]], tag="witness")
+        if f is None:
+            return None
+        out = new_outcome()
+        add_failure(out, "spec", f["what"], f["input"], f["expected"], f["got"], confirmed=True, sig=f["sig"])
+        return out["failures"][0]
     if w.get("stream") == "io":
         f = io_case(ctx, w["writer"], w["store"], w["mode"], [tuple(p) for p in w["plan"]], tag="witness")
         if f is None:
@@ -1466,6 +1645,11 @@ def check_witness(ctx, w):
 def replay(ctx, data):
     f = data.get("failing_input") or {}
     inp = f.get("input")
+    if inp and inp.get("stream") == "zip":
+        g = zip_case(ctx, inp["sfx"], [tuple(p) for p in inp["plan"]], tag="replay")
+        if g:
+            print("signature:", g["sig"], "expected:", g["expected"], "got:", g["got"])
+        return g is not None
     if inp and inp.get("stream") == "io":
         g = io_case(ctx, inp["writer"], inp["store"], inp["mode"], [tuple(p) for p in inp["plan"]], tag="replay")
         if g:
